@@ -44,6 +44,8 @@ static void prop(Ctx &c) {
             if (c.rarely(8)) { qa.chunk_hash = qa.chunk_hash == 1 ? 2 : 1; adesc += " other-chunk-hash"; }
             if (c.rarely(8)) { qa.comp = qa.comp == ZCK_COMP_ZSTD ? ZCK_COMP_NONE : ZCK_COMP_ZSTD; adesc += " other-compression"; }
         }
+        // the old file written with another overall (header/data) checksum type: chunk checksums, and so reuse, are unaffected
+        if (c.gver >= 4 && akind != 2 && c.rarely(4)) { int cur = qa.full_hash < 0 ? 1 : qa.full_hash; qa.full_hash = (cur + 1 + (int)c.draw(2)) % 4; adesc += " other-full-hash"; }
         A = gen::zfile_build(c, qa);
     }
     // ---- initial target
